@@ -35,6 +35,63 @@ package controller
 //@     invariant forall(t, 0, nvisited(), has(c.ScheduleLinks, keyseq()[t]) && (c.ScheduleLinks[keyseq()[t]].Crontab == crontab ==> InfoOf(res[nMatch(c.ScheduleLinks, keyseq(), crontab, t)], c.ScheduleLinks[keyseq()[t]])))
 //@     invariant forall(j, 0, len(res), exists(k, string, has(c.ScheduleLinks, k) && c.ScheduleLinks[k].Crontab == crontab && InfoOf(res[j], c.ScheduleLinks[k])))
 
+// Ghost log of what the controller registers with / removes from the schedule manager.
+//@ ghost nSchedAdd int
+//@ ghost schedAddedId map[int]string
+//@ ghost schedAddedCrontab map[int]string
+//@ ghost nSchedRemove int
+//@ ghost schedRemovedId map[int]string
+//@ ghost schedRemovedCrontab map[int]string
+//@ package github.com/flant/shell-operator/pkg/schedule_manager
+//@ trusted func ScheduleManager.Add
+//@   modifies controller.nSchedAdd, controller.schedAddedId, controller.schedAddedCrontab
+//@   ghostset controller.nSchedAdd := controller.nSchedAdd + 1
+//@   ghostset controller.schedAddedId[controller.nSchedAdd] := entry.Id
+//@   ghostset controller.schedAddedCrontab[controller.nSchedAdd] := entry.Crontab
+//@ trusted func ScheduleManager.Remove
+//@   modifies controller.nSchedRemove, controller.schedRemovedId, controller.schedRemovedCrontab
+//@   ghostset controller.nSchedRemove := controller.nSchedRemove + 1
+//@   ghostset controller.schedRemovedId[controller.nSchedRemove] := entry.Id
+//@   ghostset controller.schedRemovedCrontab[controller.nSchedRemove] := entry.Crontab
+//@ package github.com/flant/shell-operator/pkg/hook/controller
+
+// the link registered for a schedule binding carries the binding's settings
+//@ pred LinkOf(link *ScheduleBindingToCrontabLink, cfg htypes.ScheduleConfig) := link != nil && link.BindingName == cfg.BindingName && link.Crontab == cfg.ScheduleEntry.Crontab
+//@     && link.IncludeSnapshots == cfg.IncludeSnapshotsFrom && link.AllowFailure == cfg.AllowFailure && link.QueueName == cfg.Queue && link.Group == cfg.Group
+
+// C11: enabling registers one link per schedule binding (bindings that share a crontab keep
+// separate links: one task per binding per tick) and hands every binding's entry to the schedule
+// manager once, in order.
+//@ func (*scheduleBindingsController).EnableScheduleBindings
+//@   prop C11
+//@   requires c.ScheduleLinks != nil && c.scheduleManager != nil
+//@   requires [assumed:schedule-entry-ids-are-unique] forall(i, 0, len(c.ScheduleBindings), forall(j, 0, len(c.ScheduleBindings), i != j ==> c.ScheduleBindings[i].ScheduleEntry.Id != c.ScheduleBindings[j].ScheduleEntry.Id))
+//@   modifies mapof(c.ScheduleLinks), nSchedAdd, schedAddedId, schedAddedCrontab
+//@   let n0 := old(nSchedAdd)
+//@   ensures [one-link-per-binding] forall(i, 0, len(c.ScheduleBindings), has(c.ScheduleLinks, c.ScheduleBindings[i].ScheduleEntry.Id) && LinkOf(c.ScheduleLinks[c.ScheduleBindings[i].ScheduleEntry.Id], c.ScheduleBindings[i]))
+//@   ensures [other-links-kept]     forall(k, string, old(has(c.ScheduleLinks, k)) ==> has(c.ScheduleLinks, k))
+//@   ensures [each-entry-added-once] nSchedAdd == n0 + len(c.ScheduleBindings) && forall(k, n0, nSchedAdd, schedAddedId[k] == c.ScheduleBindings[k - n0].ScheduleEntry.Id && schedAddedCrontab[k] == c.ScheduleBindings[k - n0].ScheduleEntry.Crontab)
+//@   loop 1
+//@     invariant 0 <= iter() && iter() <= len(c.ScheduleBindings) && nSchedAdd == n0 + iter()
+//@     invariant forall(k, n0, nSchedAdd, schedAddedId[k] == c.ScheduleBindings[k - n0].ScheduleEntry.Id && schedAddedCrontab[k] == c.ScheduleBindings[k - n0].ScheduleEntry.Crontab)
+//@     invariant forall(i, 0, iter(), has(c.ScheduleLinks, c.ScheduleBindings[i].ScheduleEntry.Id) && allocated(c.ScheduleLinks[c.ScheduleBindings[i].ScheduleEntry.Id]) && LinkOf(c.ScheduleLinks[c.ScheduleBindings[i].ScheduleEntry.Id], c.ScheduleBindings[i]))
+//@     invariant forall(k, string, old(has(c.ScheduleLinks, k)) ==> has(c.ScheduleLinks, k))
+
+// C11: disabling removes the link of every schedule binding and withdraws every entry once.
+//@ func (*scheduleBindingsController).DisableScheduleBindings
+//@   prop C11
+//@   requires c.ScheduleLinks != nil && c.scheduleManager != nil
+//@   modifies mapof(c.ScheduleLinks), nSchedRemove, schedRemovedId, schedRemovedCrontab
+//@   let n0 := old(nSchedRemove)
+//@   ensures [links-removed] forall(i, 0, len(c.ScheduleBindings), !has(c.ScheduleLinks, c.ScheduleBindings[i].ScheduleEntry.Id))
+//@   ensures [only-own-links-removed] forall(k, string, old(has(c.ScheduleLinks, k)) && !has(c.ScheduleLinks, k) ==> exists(i, 0, len(c.ScheduleBindings), c.ScheduleBindings[i].ScheduleEntry.Id == k))
+//@   ensures [each-entry-removed-once] nSchedRemove == n0 + len(c.ScheduleBindings) && forall(k, n0, nSchedRemove, schedRemovedId[k] == c.ScheduleBindings[k - n0].ScheduleEntry.Id && schedRemovedCrontab[k] == c.ScheduleBindings[k - n0].ScheduleEntry.Crontab)
+//@   loop 1
+//@     invariant 0 <= iter() && iter() <= len(c.ScheduleBindings) && nSchedRemove == n0 + iter()
+//@     invariant forall(k, n0, nSchedRemove, schedRemovedId[k] == c.ScheduleBindings[k - n0].ScheduleEntry.Id && schedRemovedCrontab[k] == c.ScheduleBindings[k - n0].ScheduleEntry.Crontab)
+//@     invariant forall(i, 0, iter(), !has(c.ScheduleLinks, c.ScheduleBindings[i].ScheduleEntry.Id))
+//@     invariant forall(k, string, old(has(c.ScheduleLinks, k)) && !has(c.ScheduleLinks, k) ==> exists(i, 0, iter(), c.ScheduleBindings[i].ScheduleEntry.Id == k))
+
 // ---- C09: kube events become binding contexts carrying the binding's settings ---------------
 
 //@ pred CtxOf(bc bctx.BindingContext, kubeEvent kemtypes.KubeEvent, link *KubernetesBindingToMonitorLink) := bc.Binding == link.BindingConfig.BindingName
